@@ -192,6 +192,36 @@ def rateOk (cfg : Cfg) (older : List Ev) : Ev → Bool
   | .done _ true t => decide ((allowedSince older t (cfg.win - 1000) + 1 : Int) ≤ 2 * max cfg.qmax 0)
   | _ => true
 
+/-! #### What a tick of the processing loop must admit (reference semantics of the attached quota)
+
+With the production wiring the attached quota is drawn on by the Queue processor only, and only an
+admission changes its state (a refused attempt stores nothing); so its state is a function of the
+admission instants so far.  At a tick the loop takes the waiter with the least priority number
+(earliest queued among equals) while the quota has room.  Used by the judge for the plain
+configurations (no quota tree, one processor): a missed admission (room, but the best waiter is
+passed over) or a spurious one is a violation.  Not a theorem here. -/
+
+def admissionTimes (older : List Ev) : List Nat :=
+  (older.filterMap fun | .done _ true t => some t | _ => none).reverse
+
+def quotaHasRoom (cfg : Cfg) (older : List Ev) (t : Nat) : Bool :=
+  (quotaTry cfg ((admissionTimes older).foldl (fun q t' => (quotaTry cfg q t').1) {}) t).2
+
+def bestWaiting (older : List Ev) : Option Nat :=
+  ((waiting older).foldl (fun best x =>
+    match best with
+    | none => some x
+    | some b => if x.2.1 ≤ b.2.1 then some x else some b) none).map (·.1)
+
+/-- The admissions the loop's pass at instant `t` must deliver, in order. -/
+def expectedAdmissions (cfg : Cfg) : Nat → List Ev → Nat → List Nat
+  | 0, _, _ => []
+  | fuel + 1, older, t =>
+    match bestWaiting older with
+    | none => []
+    | some i =>
+      if quotaHasRoom cfg older t then i :: expectedAdmissions cfg fuel (.done i true t :: older) t else []
+
 /-- The whole property C06 on a history (oldest first). -/
 def holds (cfg : Cfg) (h : List Ev) : Bool :=
   holdsSafety cfg h && holdsTimely cfg h && scan (rateOk cfg) [] h
